@@ -7,6 +7,27 @@ TB = ('Trusted base: rustc MIR construction and layout; tools/mirfacts exporter;
       '(intervals x known-bits, self-tested against Python integers); reference tables in gbsa/. ')
 
 CHECKS = {
+ 'C02': dict(
+    technique='per-opcode abstract interpretation of interpreter and emitter; cycle-constant agreement per outcome',
+    text='Decides, for each of the 500 defined encodings and both outcomes of the 16 conditional forms (516 cases), '
+         'that the machine cycles the emitted code adds to R15 equal the cycles the interpreter adds '
+         '(decoder clocks/4 + taken extras), that clock counts are multiples of 4, that increments fit imm8, and that '
+         'Registers.cycles has no writers beyond the per-instruction sites; sums over blocks follow because both '
+         'engines add per-instruction constants.',
+    note=TB + 'The bytes of the add-r15 template are not interpreted; span membership of conditional increments is '
+         'derived from the emitted host-branch displacement byte.',
+    ref='DESIGN.md#c02'),
+ 'C06': dict(
+    technique='per-opcode conditional constant propagation of decode/run_op compared with generated SM83 tables',
+    text='Decides for all 511 encodings (x taken/not-taken, x sign of e8): decoder length = SM83 length = interpreter '
+         'fall-through advance; decoder clocks/4 + path extras = SM83 cycles with the right condition polarity; taken '
+         'paths load PC from imm16/HL/vector/popped word/PC+2+sext(e8); PUSH/CALL/RST/POP/RET/RETI stack protocol '
+         '(addresses mod 2^16, byte order, SP update); is_block_end exactly on control/halt/IME variants; the 11 '
+         'undefined opcodes decode to Invalid and diverge untouched; status codes; operand fetch never indexes past '
+         'the slice run_next_op hands to decode() (window derived from the fetch code).',
+    note=TB + 'Assumes 16-bit register pairs at instruction entry (C05.4). PC above 0xffff is not reduced by the '
+         'interpreter and is reported as information only.',
+    ref='DESIGN.md#c06'),
  'C18': dict(
     technique='effect confinement over the resolved call graph + path enumeration with known-bits',
     text='Decides, for both build configurations, that the only code reachable from the step functions that can '
